@@ -5,6 +5,7 @@ import SigHook.Model.HalfLock
 import SigHook.Model.RegistryConc
 import SigHook.Model.Channel
 import SigHook.Model.ChannelGen
+import SigHook.Model.Iterator
 import SigHook.Gen.Orderings
 import SigHook.Gen.Consts
 import SigHook.Model.Env
@@ -472,7 +473,7 @@ def chStep (d : ChDrv) (line : String) : ChDrv × String :=
 
 def fnv (acc : UInt64) (x : UInt64) : UInt64 := (acc ^^^ x) * 1099511628211
 
-def chTable : List String := Id.run do
+def chTable (_ : Unit) : List String := Id.run do
   let mut lines : Array String := #[]
   for idx in [0:5] do
     let mut acc : UInt64 := 1469598103934665603
@@ -485,6 +486,91 @@ def chTable : List String := Id.run do
         acc2 := fnv acc2 (Packed.set (BitVec.ofNat 16 n) idx (BitVec.ofNat 16 v)).toNat.toUInt64
       lines := lines.push s!"set-sum idx={idx} v={v} {acc2.toNat}"
   return lines.toList
+
+/-! ### iterator back end (L8) -/
+
+def itFile := "src/iterator/backend.rs"
+def exFile := "src/iterator/exfiltrator/mod.rs"
+
+def fmtItObs : Iter.Obs → String
+  | .storeSlot sig => s!"store slot{sig} 1 @store#1:{ordOf exFile "store" 1}"
+  | .storeClosed => s!"store closed 1 @close#1:{ordOf itFile "close" 1}"
+  | .wake ok => s!"sys send W len=1 dontwait = {if ok then "1" else "-1"}"
+  | .loadClosed v => s!"load closed = {if v then 1 else 0} @is_closed#1:{ordOf itFile "is_closed" 1}"
+  | .recv n => s!"sys recv R len=1024 dontwait = {n}"
+  | .cas pos ok => s!"cas slot{pos} 1->0 = {if ok then "ok 1" else "fail 0"} @load#1:{ordOf exFile "load" 1}"
+  | .callback b a => s!"cb {if b then "block" else "nonblock"} {a}"
+
+structure ItDrv where
+  watched : List Nat := []
+  cap : Nat := 278
+  prefill : Nat := 0
+  scripts : Array (List (String × Iter.Cmd)) := #[]
+
+def parseItCmd (w : List String) : Option Iter.Cmd :=
+  match w with
+  | ["deliver", s] => s.toNat?.map .deliver
+  | ["close"] => some .close
+  | ["pending"] => some .pending
+  | ["wait"] => some .wait
+  | ["poll"] => some .poll
+  | ["forever"] => some .forever
+  | _ => none
+
+def itRun (d : ItDrv) (sched : List Nat) : List String := Id.run do
+  let mut s := Iter.Sys.init d.watched d.cap d.prefill (d.scripts.toList.map (fun l => l.map (·.2)))
+  let mut texts := d.scripts.map (fun l => l.map (·.1))
+  let mut lines : Array String := #[]
+  for t in sched do
+    let th := s.threads[t]?.getD { script := [], pc := .idle }
+    let atStart := match th.pc with | .idle => true | _ => false
+    if atStart then
+      match texts[t]?.getD [] with
+      | tx :: rest =>
+        lines := lines.push s!"t{t} call {tx}"
+        texts := texts.set! t rest
+      | [] => pure ()
+    let inDeliv := match th.pc, th.script with
+      | .idle, .deliver _ :: _ => "H "
+      | .dWake _, _ => "H "
+      | _, _ => ""
+    match Iter.step Gen.pollRechecksClosed s t with
+    | none =>
+      lines := lines.push s!"t{t} NOT-ENABLED"
+      break
+    | some (s', out) =>
+      lines := lines.push s!"t{t} {inDeliv}{fmtItObs out.obs}"
+      match out.yielded with
+      | some sig => lines := lines.push s!"t{t} yield {sig}"
+      | none => pure ()
+      match out.ret with
+      | some .done => lines := lines.push s!"t{t} ret done"
+      | some (.pollSignal sig) => lines := lines.push s!"t{t} ret poll signal {sig}"
+      | some .pollPending => lines := lines.push s!"t{t} ret poll pending"
+      | some .pollClosed => lines := lines.push s!"t{t} ret poll closed"
+      | none => pure ()
+      s := s'
+  let done := s.threads.all (fun th => th.pc == .idle && th.script.isEmpty)
+  let blocked := (List.range s.threads.length).filter (fun t => match s.threads[t]? with
+    | some th => !(th.pc == .idle && th.script.isEmpty) && (Iter.step Gen.pollRechecksClosed s t).isNone
+    | none => false)
+  lines := lines.push (if done then "END done" else if !blocked.isEmpty then "END blocked" else "END unfinished")
+  return lines.toList
+
+def itStep (d : ItDrv) (line : String) : ItDrv × String :=
+  match line.trimAscii.toString.splitOn " " with
+  | "setup" :: "watch" :: rest => ({ d with watched := d.watched ++ rest.filterMap (·.toNat?) }, "")
+  | ["setup", "fill"] | ["setup", "style", _] | ["seed", _] | ["maxsteps", _] => (d, "")
+  | ["cap", c, "prefill", p] => ({ d with cap := c.toNat?.getD 278, prefill := p.toNat?.getD 0 }, "")
+  | "schedule" :: rest => (d, "\n".intercalate (itRun d (rest.filterMap (·.toNat?))))
+  | ["---"] => ({}, "---")
+  | t :: rest =>
+    match (t.drop 1).toString.toNat?, parseItCmd rest with
+    | some t, some c =>
+      let scripts := if d.scripts.size ≤ t then d.scripts ++ Array.replicate (t + 1 - d.scripts.size) [] else d.scripts
+      ({ d with scripts := scripts.modify t (· ++ [(" ".intercalate rest, c)]) }, "")
+    | _, _ => (d, "bad-op")
+  | _ => (d, "bad-op")
 
 partial def loop {σ} (h : IO.FS.Stream) (out : IO.FS.Stream) (st : σ) (f : σ → String → σ × String) :
     IO Unit := do
@@ -507,5 +593,6 @@ def main (args : List String) : IO UInt32 := do
   | ["halflock"] => loop stdin stdout ({} : HlDrv) hlStep; return 0
   | ["regconc"] => loop stdin stdout ({} : RcDrv) rcStep; return 0
   | ["channel"] => loop stdin stdout ({} : ChDrv) chStep; return 0
-  | ["channel-table"] => (for l in chTable do stdout.putStrLn l); return 0
+  | ["iter"] => loop stdin stdout ({} : ItDrv) itStep; return 0
+  | ["channel-table"] => (for l in chTable () do stdout.putStrLn l); return 0
   | _ => IO.eprintln "usage: driver registry"; return 2
